@@ -115,6 +115,8 @@ type Byz struct {
 	realVec      []byte         // payload (without tag) of the real vector
 	shadowShares map[int][]byte
 	shadowVec    []byte
+	truncShares  map[int][]byte // "truncated vector" attack (see makeTruncated), nil if off
+	truncVec     []byte
 	floor        int // broadcasts never land in an earlier round than a previous one of the same sender
 	crashAt      int // event count at which the participant crash-stops (0 = never)
 	crashed      bool
@@ -436,6 +438,39 @@ func (w *World) makeShadow(b *Byz, seed []byte) {
 	}
 	b.shadowShares = cp.shares
 	b.shadowVec = cp.vec
+}
+
+// makeTruncated prepares the "truncated vector" attack of Byzantine dealer b: a dealing of a
+// polynomial of LOWER degree k-1 (its k vector points and matching shares), to be followed in
+// the broadcast vector by an undecodable point and padding. A receiver that keeps processing
+// a vector after a decoding error would derive public keys from the first k points only, and
+// the shares would match them. k=1 uses a constant polynomial P = s (vector point s*g2
+// obtained by encoding the public key of private key s).
+func (w *World) makeTruncated(b *Byz, seed []byte, k int) {
+	if k >= 2 {
+		cp := &capture{shares: map[int][]byte{}}
+		st, err := crypto.NewFeldmanVSS(w.n, k-1, b.idx, cp, b.idx)
+		if err != nil {
+			return
+		}
+		if err := st.Start(seed); err != nil {
+			return
+		}
+		b.truncShares, b.truncVec = cp.shares, cp.vec
+		return
+	}
+	sc := append([]byte(nil), seed[:32]...)
+	sc[0] &= 0x3f // < r
+	sc[31] |= 1   // non-zero
+	sk, err := crypto.DecodePrivateKey(crypto.BLSBLS12381, sc)
+	if err != nil {
+		return
+	}
+	b.truncVec = sk.PublicKey().Encode()
+	b.truncShares = map[int][]byte{}
+	for j := 0; j < w.n; j++ {
+		b.truncShares[j] = sc
+	}
 }
 
 func sortedKeys(m map[int]bool) []int {
